@@ -620,7 +620,12 @@ func runTCPCase(t *testing.T, method string, capab int) (sx, sx) {
 	}
 	var out sx
 	var outHead []sx
-	tupleMismatch := 0
+	tupleMismatch, endpointMismatch := 0, 0
+	// a real-time limit on waiting for the run's TCP connection (made outside the bubble: a timer of the bubble's virtual
+	// clock could not fire while a goroutine waits on the accept channel)
+	giveUp := make(chan struct{})
+	giveUpTimer := time.AfterFunc(3*time.Second, func() { close(giveUp) })
+	defer giveUpTimer.Stop()
 	synctest.Test(t, func(t *testing.T) {
 		f := &wireFactory{faults: newFaultPlan()}
 		lo := [4]byte{127, 0, 0, 1}
@@ -641,6 +646,8 @@ func runTCPCase(t *testing.T, method string, capab int) (sx, sx) {
 					// the accept loop runs outside the bubble: waiting on its channel is not durably
 					// blocking, so the virtual clock stands still until the peer port is known
 					select {
+					case <-giveUp:
+						// nobody connected within 3 s of real time: the run is not doing a SACK handshake at all
 					case lp := <-portCh:
 						c := cfg
 						c.sport = lp
@@ -677,14 +684,48 @@ func runTCPCase(t *testing.T, method string, capab int) (sx, sx) {
 		p := traceroute.TracerouteParams{Hostname: "127.0.0.1", Port: dport, Protocol: "tcp", MinTTL: 1, MaxTTL: 3, Delay: 1, Timeout: 2 * time.Second, TCPMethod: traceroute.TCPMethod(method)}
 		status := 0
 		var err error
+		var trRun *result.TracerouteRun
 		func() {
 			defer func() {
 				if r := recover(); r != nil {
 					status = 2
 				}
 			}()
-			_, err = traceroute.VerifRunTracerouteOnce(context.Background(), p, dport)
+			trRun, err = traceroute.VerifRunTracerouteOnce(context.Background(), p, dport)
 		}()
+		// the endpoints a successful run reports are those of the TCP probes written through one of its handles (the
+		// handle of the attempt that produced the result: a prefer_sack run may have abandoned a SACK attempt first)
+		if err == nil && trRun != nil {
+			f.mu.Lock()
+			any, matched := false, false
+			for _, h := range f.handles {
+				n, ok := 0, true
+				for _, o := range h.snk.sent() {
+					b := o.data
+					if len(b) >= 24 && b[0]>>4 == 4 && b[9] == 6 {
+						l4 := b[int(b[0]&0xf)*4:]
+						if len(l4) < 4 {
+							continue
+						}
+						n++
+						if int(l4[0])<<8|int(l4[1]) != int(trRun.Source.Port) || int(l4[2])<<8|int(l4[3]) != int(trRun.Destination.Port) ||
+							!net.IP(b[12:16]).Equal(trRun.Source.IPAddress) || !net.IP(b[16:20]).Equal(trRun.Destination.IPAddress) {
+							ok = false
+						}
+					}
+				}
+				if n > 0 {
+					any = true
+					if ok {
+						matched = true
+					}
+				}
+			}
+			f.mu.Unlock()
+			if any && !matched {
+				endpointMismatch = 1
+			}
+		}
 		var ns *sack.NotSupportedError
 		syn, ackpsh := 0, 0
 		for _, w := range summarize(f.allSent()) {
@@ -723,7 +764,7 @@ func runTCPCase(t *testing.T, method string, capab int) (sx, sx) {
 			status = 1
 		}
 		outHead = []sx{sxInt(int64(status)), sxBool(err != nil && errors.As(err, &ns)), sxBool(err != nil && errors.Is(err, injectedCause)),
-			sxInt(int64(syn)), sxInt(int64(ackpsh)), sxInt(int64(accepted.Load())), closes, sxInt(int64(tupleMismatch))}
+			sxInt(int64(syn)), sxInt(int64(ackpsh)), sxInt(int64(accepted.Load())), closes, sxInt(int64(tupleMismatch)), sxInt(int64(endpointMismatch))}
 	})
 	if ln != nil {
 		ln.Close()
